@@ -10,6 +10,7 @@ import Hannibal.Monitor.C10
 import Hannibal.Monitor.C11
 import Hannibal.Monitor.C11C
 import Hannibal.Monitor.C12
+import Hannibal.Monitor.C12Q
 import Hannibal.Monitor.C13
 import Hannibal.Monitor.C14
 import Hannibal.Monitor.C15
@@ -25,7 +26,13 @@ def runMonitor (pid : String) (c : MonCtx) (ls : List Label) : Option (Option Na
   match pid with
   | "C01" => some (match ff (monC01 c) ls with
       | some k => some k
-      | none => ff monWf01 ls)      -- the theorem's hypothesis (fresh message / operation ids) holds of the trace
+      | none => match ff monWf01 ls with   -- the theorem's hypothesis (fresh message / operation ids) holds of the trace
+        | some k => some k
+        -- "the state is the fold of the handled messages": an incarnation is only replaced by a requested
+        -- restart (monC07; proved)
+        | none => match ff (monC07 c) ls with
+          | some k => some k
+          | none => ff (monC07o c) ls)
   | "C02" => some (match ff (monC02 c) ls with
       | some k => some k
       | none => match ff (monC02t c) ls with
@@ -74,7 +81,13 @@ def runMonitor (pid : String) (c : MonCtx) (ls : List Label) : Option (Option Na
         | none => match ff (monC11c c) ls with     -- the caller of an abandoned invocation gets an error (proved)
           | some k => some k
           | none => ff monWf01 ls)                 -- hypothesis of `C11c_holds`: fresh message numbers and op ids
-  | "C12" => some (ff (monC12 c.cfg.cap) ls)
+  | "C12" => some (match ff (monC12 c.cfg.cap) ls with
+      | some k => some k
+      | none => match ff monC12q ls with         -- every send returns once the actor has caught up ...
+        | some k => some k
+        | none => match ff (monC02 c) ls with     -- ... or terminated (clause (d) of monC02; proved)
+          | some k => some k
+          | none => ff (monC02wf c) ls)           -- operation ids are fresh
   | "C13" => some (match ff (monC13 c) ls with
       | some k => some k
       | none => match ff (monC13q c) ls with
